@@ -13,6 +13,8 @@ Next == /\ l <= Len(Scens[sc].ev) /\ l' = l + 1 /\ UNCHANGED sc
            CASE e[1] = "w"   -> IF e[2] = 65281 THEN WSB(e[3]) ELSE WOther
              [] e[1] = "r"   -> (e[2] \in {65281, 65282} => e[3] = ReadVal(e[2])) /\ UNCHANGED svars
              [] e[1] = "out" -> e[2] = out /\ UNCHANGED svars
+             \* the harness emptied its writer's buffer (long runs are compared piece by piece)
+             [] e[1] = "cut" -> out' = <<>> /\ sbw' = <<>> /\ UNCHANGED hasWriter
              [] OTHER        -> FALSE
 Spec == Init /\ [][Next]_vars
 Done == (l = Len(Scens[sc].ev) + 1) => PrintT(<<"ACCEPT", Scens[sc].id>>)
